@@ -114,6 +114,26 @@ CHECKS = {
              "of s compared byte for byte.",
         note="Bounded literal length over class representatives; NUL escapes and unterminated double-quoted strings / comments are outside the "
              "statement (both outcomes tolerated, no trace may be left: see C08)."),
+    "C04": dict(
+        cat="model_checking", ref="7/C04",
+        text="Numeral.tla holds the reference grammar (radix by prefix, at least one digit, whole token, range of long by digit-string "
+             "comparison, C99 float syntax, the six boolean words) and an operational model of the conversion in cfg_setopt including "
+             "strtol's own leniencies (white space, sign, second prefix). TLC checks on every token up to the bound that the guarded "
+             "conversion accepts exactly the reference language with the same number, and - as a vacuity witness - that the unguarded one "
+             "does not. Every token, plus boundary values around LONG_MIN/LONG_MAX in four radixes and DBL_MAX, is replayed through the "
+             "parser, cfg_setopt and cfg_setmulti with ambient errno 0 / ERANGE / EINVAL and the stored value compared exactly.",
+        note="The numeric value of a double is compared against Python's correctly rounded conversion, not computed in TLA+ (no floating point "
+             "there); sign before a radix prefix, inf/nan and underflow are left open by the statement and tolerated either way."),
+    "C11": dict(
+        cat="model_checking", ref="7/C11",
+        text="PathRes.tla has the path mini-language twice: an operational resolver shaped like cfg_getopt_secidx/parse_title and a "
+             "reference that splits by the grammar and walks one level at a time. TLC checks agreement, first-instance semantics and that "
+             "every generated path resolves, on all byte strings up to the bound over the path alphabet and on ~850 paths enumerated from a "
+             "four-level tree with their systematic breakages. Every path is replayed: cfg_getopt / cfg_getsec results are located in the "
+             "real tree by pointer identity and compared with the stepwise location; by-path getter, setter and cfg_rmsec effects are "
+             "checked against the tree dump.",
+        note="One hand-built tree (nested multi, titled with quote/backslash/numeric titles, single sections); doubled separators and "
+             "non-decimal indices are left open by the statement ('unspec', not compared)."),
 }
 
 PENDING = {
